@@ -24,7 +24,9 @@ Proof. exact run_top_total. Qed.
 
 (* whenever the machine returns normally its result is the specification's: no stuck states *)
 Theorem C20_normal_results_are_specified :
-  forall K toks spn n, R K toks spn (go no_quirks K toks spn n) (sem K toks spn n).
+  forall K toks spn n m g ctx s r s1,
+    go no_quirks K toks spn n m g ctx s = (r, s1) -> inv toks s ->
+    post toks m s r s1 (sem K toks spn n g ctx (cur s) (alt s)).
 Proof. exact refine. Qed.
 
 (* non-vacuity: the zero-sized error type, a failing labelled parser under recover_with and map_err *)
